@@ -4,6 +4,7 @@ import (
 	"encoding/json"
 	"fmt"
 	"math"
+	"math/big"
 	"strconv"
 	"strings"
 	"time"
@@ -267,6 +268,108 @@ func runC06(r *core.Run) {
 		lines = append(lines, core.JSON(map[string]interface{}{"kind": "agree", "ri": cells[0].Text, "rf": normZero(strings.TrimSuffix(cells[1].Text, ".0"))}))
 		lits = append(lits, fmt.Sprintf("%d %s %d (integer vs float)", x, op, y))
 	}
+	// integers near the int64 bounds, 2^53 and 10^18 as offsets from a base (ValuesTrace: wincmp / win); results are
+	// read through STRING(): csvq's JSON output rounds integers above 2^53 (dependency, see known findings of C02)
+	bases := []*big.Int{}
+	for _, t := range []string{"9223372036854773807", "-9223372036854773808", "9007199254740992", "-9007199254740992", "1000000000000000000", "-1000000000000000000", "1000000000000000"} {
+		b, _ := new(big.Int).SetString(t, 10)
+		bases = append(bases, b)
+	}
+	spell := func(v *big.Int) string {
+		t := v.String()
+		switch r.Rand.Intn(7) {
+		case 0, 1:
+			return t // numeric literal
+		case 2:
+			return "'" + t + "'"
+		case 3:
+			return "' " + t + "  '"
+		case 4:
+			if v.Sign() > 0 {
+				return "'+" + t + "'"
+			}
+			return "'" + t + "'"
+		case 5:
+			if v.Sign() > 0 {
+				return "'000" + t + "'"
+			}
+			return "'-000" + t[1:] + "'"
+		}
+		return "'" + t + "'"
+	}
+	off := func(v *big.Int, base *big.Int) int64 {
+		d := new(big.Int).Sub(v, base)
+		if d.IsInt64() && d.Int64() > -(1<<30) && d.Int64() < (1<<30) {
+			return d.Int64()
+		}
+		return 999999999
+	}
+	nbig := n / 3
+	for i := 0; i < nbig; i++ {
+		base := bases[r.Rand.Intn(len(bases))]
+		da, db := int64(r.Rand.Intn(9)-4), int64(r.Rand.Intn(9)-4)
+		if r.Rand.Intn(3) == 0 {
+			da, db = int64(r.Rand.Intn(2001)-1000), int64(r.Rand.Intn(2001)-1000)
+		}
+		va, vb := new(big.Int).Add(base, big.NewInt(da)), new(big.Int).Add(base, big.NewInt(db))
+		a, b := spell(va), spell(vb)
+		if i%2 == 0 {
+			sql := fmt.Sprintf("SELECT (%[1]s = %[2]s) AS c1, (%[1]s <> %[2]s) AS c2, (%[1]s < %[2]s) AS c3, (%[1]s <= %[2]s) AS c4, (%[1]s > %[2]s) AS c5, (%[1]s >= %[2]s) AS c6, (%[2]s = %[1]s) AS d1, (%[2]s <> %[1]s) AS d2, (%[2]s < %[1]s) AS d3, (%[2]s <= %[1]s) AS d4, (%[2]s > %[1]s) AS d5, (%[2]s >= %[1]s) AS d6;", a, b)
+			cells, e := evalRow(p, sql)
+			if e != "" || len(cells) != 12 {
+				r.Violation("values:random-eval-error:"+e, sql+" fails: "+e, map[string]interface{}{"a": a, "b": b})
+				continue
+			}
+			var ab, ba []string
+			for k := 0; k < 6; k++ {
+				ab = append(ab, ternOf(cells[k]))
+				ba = append(ba, ternOf(cells[6+k]))
+			}
+			lines = append(lines, core.JSON(map[string]interface{}{"kind": "wincmp", "da": da, "db": db, "ab": ab, "ba": ba}))
+			lits = append(lits, a+" ? "+b+" (integers)")
+			continue
+		}
+		c := int64(1 + r.Rand.Intn(900))
+		op := []string{"+", "-", "diff", "mod", "neg"}[r.Rand.Intn(5)]
+		var sql string
+		ev := map[string]interface{}{"kind": "win", "op": op, "da": da, "db": db, "c": c, "bm": 0, "off": 0, "val": 0, "isint": false}
+		switch op {
+		case "+", "-":
+			sql = fmt.Sprintf("SELECT STRING(%s %s %d) AS r;", a, op, c)
+		case "diff":
+			sql = fmt.Sprintf("SELECT STRING(%s - %s) AS r;", a, b)
+		case "mod":
+			sql = fmt.Sprintf("SELECT STRING(%s %% %d) AS r;", a, c)
+			bm := new(big.Int).Rem(base, big.NewInt(c)).Int64() // truncated: sign of the base
+			if base.Sign() > 0 {
+				bm += 2000 * c
+			} else {
+				bm -= 2000 * c
+			}
+			ev["bm"] = bm
+		case "neg":
+			sql = fmt.Sprintf("SELECT STRING(-(%s)) AS r;", a)
+		}
+		cells, e := evalRow(p, sql)
+		if e != "" || len(cells) != 1 {
+			r.Violation("values:random-eval-error:"+e, sql+" fails: "+e, nil)
+			continue
+		}
+		if v, ok := new(big.Int).SetString(cells[0].Text, 10); ok && !cells[0].Null {
+			ev["isint"] = true
+			switch op {
+			case "+", "-":
+				ev["off"] = off(v, base)
+			case "neg":
+				ev["off"] = off(v, new(big.Int).Neg(base))
+			default:
+				ev["val"] = off(v, big.NewInt(0))
+			}
+		}
+		lines = append(lines, core.JSON(ev))
+		lits = append(lits, strings.TrimSuffix(strings.TrimPrefix(sql, "SELECT "), " AS r;")+" = "+cells[0].Text)
+	}
+	r.Coverage["big_integer_window_events"] = nbig
 	res := r.RunTLC(core.TLCOpts{Module: "ValuesTrace", Cfg: "ValuesTrace.cfg", Workers: 1, Timeout: 10 * time.Minute, KeepOut: true,
 		Texts: map[string]string{"trace.ndjson": strings.Join(lines, "\n") + "\n"}})
 	for rounds := 0; !res.OK && rounds < 8; rounds++ {
@@ -280,6 +383,10 @@ func runC06(r *core.Run) {
 		kind := "consistency-laws"
 		if strings.Contains(lines[idx], `"agree"`) {
 			kind = "int-float-agreement"
+		} else if strings.Contains(lines[idx], `"wincmp"`) {
+			kind = "big-integer-comparison"
+		} else if strings.Contains(lines[idx], `"win"`) {
+			kind = "big-integer-arithmetic"
 		}
 		if !reported["values:random:"+kind] {
 			reported["values:random:"+kind] = true
